@@ -12,6 +12,7 @@ import (
 	"math/big"
 	"net/http"
 	"net/http/httptest"
+	"sort"
 	"strings"
 	"time"
 
@@ -23,6 +24,8 @@ import (
 	"github.com/formancehq/ledger/internal/engine"
 	"github.com/formancehq/ledger/internal/engine/command"
 	"github.com/formancehq/ledger/internal/opentelemetry/metrics"
+	"github.com/formancehq/ledger/internal/storage/ledgerstore"
+	"github.com/formancehq/ledger/internal/storage/sqlutils"
 	"github.com/formancehq/ledger/verifx/engx"
 	"github.com/formancehq/ledger/verifx/fakeapi"
 	"github.com/formancehq/ledger/verifx/vx"
@@ -228,6 +231,18 @@ func boot(disk *engx.Disk) *world {
 		default:
 			return nil, engine.NewCommandError(c.DeleteMetadata(context.Background(), call.Params, call.TargetType, call.TargetID, call.Key))
 		}
+	}
+	// single-transaction reads: the store's rule "the transaction with this id whose timestamp is not after the point in time"
+	l.GetTx = func(q ledgerstore.GetTransactionQuery) (*ledger.ExpandedTransaction, error) {
+		for _, lg := range disk.Logs {
+			if tx := txOf(lg); tx != nil && q.ID != nil && tx.ID.Cmp(q.ID) == 0 {
+				if q.PIT != nil && !q.PIT.IsZero() && tx.Timestamp.After(*q.PIT) {
+					break
+				}
+				return &ledger.ExpandedTransaction{Transaction: *tx}, nil
+			}
+		}
+		return nil, sqlutils.ErrNotFound
 	}
 	w.router = api.NewRouter(&fakeapi.Backend{L: l}, &health.HealthController{}, metrics.NewNoOpRegistry(), auth.NewNoAuth(), false)
 	return w
@@ -458,6 +473,14 @@ func runHistory(r *vx.Run, h []hreq) {
 						if res.TxID != tx.ID.String() {
 							r.FailP("C06", "http:answer-differs-from-entry:"+q.API+":"+q.Kind, in, fmt.Sprintf("answered %q, entry %s", res.TxID, tx.ID), size)
 						}
+						// a read started after the response sees the write (default point in time = now)
+						for _, base := range []string{"/api/ledger/l0", "/api/ledger/v2/l0"} {
+							rr := httptest.NewRecorder()
+							w.router.ServeHTTP(rr, httptest.NewRequest("GET", fmt.Sprintf("%s/transactions/%s", base, tx.ID), nil))
+							if rr.Code != 200 {
+								r.FailP("C06", "http:read-after-the-response-does-not-see-the-write:"+map[string]string{"/api/ledger/l0": "v1", "/api/ledger/v2/l0": "v2"}[base], in, fmt.Sprintf("GET transaction %s right after its creation was acknowledged: status %d %s", tx.ID, rr.Code, rr.Body.String()), size)
+							}
+						}
 					}
 				}
 				if len(newEvents) == 0 && added == 1 {
@@ -583,6 +606,9 @@ func gen(g *vx.Rng) []hreq {
 			}
 			if g.Chance(1, 3) {
 				q.Ref = fmt.Sprintf("ref-%d", g.Intn(4))
+				if g.Chance(1, 3) { // references are text: blanks around them belong to them
+					q.Ref = []string{" order 42 ", "invoice-7 ", " lead", "a  b"}[g.Intn(4)] + fmt.Sprint(g.Intn(3))
+				}
 			}
 			if g.Chance(1, 2) {
 				q.Meta = map[string]string{"k": fmt.Sprint(g.Intn(5))}
@@ -601,12 +627,12 @@ func gen(g *vx.Rng) []hreq {
 		case c < 7:
 			q.Kind, q.TxID, q.Force = "revert", g.Intn(txs+1), g.Chance(1, 3)
 		case c < 8:
-			q.Kind, q.Account, q.Meta = "accmeta", accs[g.Intn(3)], map[string]string{"k": fmt.Sprint(g.Intn(5))}
+			q.Kind, q.Account, q.Meta = "accmeta", accs[g.Intn(3)], map[string]string{[]string{"k", "j", "role"}[g.Intn(3)]: fmt.Sprint(g.Intn(3))}
 			if g.Chance(1, 4) {
 				q.Meta = map[string]string{} // an empty object is a valid metadata write: persisted, hence published
 			}
 		case c < 9:
-			q.Kind, q.TxID, q.Meta = "txmeta", g.Intn(txs+1), map[string]string{"k": fmt.Sprint(g.Intn(5))}
+			q.Kind, q.TxID, q.Meta = "txmeta", g.Intn(txs+1), map[string]string{[]string{"k", "j", "role"}[g.Intn(3)]: fmt.Sprint(g.Intn(3))}
 			if g.Chance(1, 4) {
 				q.Meta = map[string]string{}
 			}
@@ -623,7 +649,27 @@ func gen(g *vx.Rng) []hreq {
 			keyed = append(keyed, q)
 		}
 	}
+	if g.Chance(1, 3) {
+		// two posting lists over the same accounts that differ only in which sends go which way: each commits its own
+		a, b := accs[g.Intn(3)], accs[(g.Intn(2)+1)%3]
+		if a == b {
+			b = accs[(g.Intn(3)+1)%3]
+		}
+		api := []string{"v1", "v2"}[g.Intn(2)]
+		h = append(h, hreq{API: api, Kind: "create", Posts: [][4]string{{"world", a, "USD", "100"}, {"world", b, "USD", "100"}}})
+		h = append(h, hreq{API: api, Kind: "create", Posts: [][4]string{{a, b, "USD", "10"}, {a, b, "USD", "20"}, {b, a, "USD", "30"}}})
+		h = append(h, hreq{API: api, Kind: "create", Posts: [][4]string{{a, b, "USD", "10"}, {b, a, "USD", "20"}, {a, b, "USD", "30"}}})
+		h = append(h, hreq{API: api, Kind: "create", Posts: [][4]string{{b, a, "USD", "10"}, {a, b, "USD", "20"}, {a, b, "USD", "30"}}})
+	}
 	return h
+}
+
+// crashed: the answer of a handler that panicked. chi's Recoverer (v2) answers a bare 500 without a body (an error
+// the handler merely does not map to a client error is a 500 WITH an INTERNAL body: poor, but a defined answer, not a
+// crash); a panic inside an Error() method swallowed by fmt shows as "%!s(PANIC=" / "%!v(PANIC=" in the text.
+func crashed(rec *httptest.ResponseRecorder) bool {
+	body := rec.Body.String()
+	return (rec.Code == 500 && strings.TrimSpace(body) == "") || strings.Contains(body, "(PANIC=")
 }
 
 // varsShapes: `script.vars` of a create request as a client may spell it (C12: no variable map can crash the engine; the
@@ -671,9 +717,8 @@ func varsShapes(r *vx.Run) {
 			switch {
 			case pan != "":
 				r.FailP("C12", "http:panic-decoding-or-running-script-vars:"+api, in, pan, len(vars))
-			case rec.Code == 500 || strings.Contains(rec.Body.String(), `"INTERNAL"`):
-				// the router's Recoverer turns a panic of the handler into a 500; a malformed variable map is a client
-				// error with a defined code, and a well-formed one succeeds: an internal error here is a crash
+			case crashed(rec):
+				// the router's Recoverer turns a panic of the handler into a bare 500
 				r.FailP("C12", "http:internal-error-decoding-or-running-script-vars:"+api, in, fmt.Sprintf("status %d body %s", rec.Code, rec.Body.String()), len(vars))
 			case ok && len(disk.Logs) != 1:
 				r.FailP("C06", "http:success-without-exactly-one-entry:"+api+":script-vars", in, fmt.Sprintf("status %d, %d entries", rec.Code, len(disk.Logs)), len(vars))
@@ -683,6 +728,117 @@ func varsShapes(r *vx.Run) {
 			w.cancel()
 			r.Count("http:script-vars-shape")
 			r.Case("", in, api+vars, true)
+		}
+	}
+}
+
+// scriptShapes: script TEXTS as a client may send them through the real v1 / v2 / bulk handlers to the real Commander
+// (C12): many print statements, scripts that stop in the middle of a statement, comments only, empty, very long. Every
+// request is answered (no hang, no panic, no internal error); a 2xx answer means exactly one entry, anything else none.
+func scriptShapes(r *vx.Run) {
+	send := "send [USD 10] (\n  source = @world\n  destination = @alice\n)\n"
+	prints := func(n int) string { return strings.Repeat("print 1 + 1\n", n) + send }
+	shapes := map[string]string{
+		"prints-0": prints(0), "prints-1": prints(1), "prints-15": prints(15), "prints-16": prints(16), "prints-17": prints(17), "prints-40": prints(40), "prints-300": prints(300),
+		"truncated-send": "send [USD 100] (\n", "truncated-vars": "vars {\n\taccount $a\n", "truncated-source": "send [USD 100] (\n  source = ", "truncated-monetary": "send [USD ",
+		"truncated-destination": "send [USD 1] (\n  source = @world\n  destination = {\n    50% to @a\n", "only-comment": "// nothing\n", "only-block-comment": "/* nothing */", "empty": "", "blank": " \n\t",
+		"unterminated-comment": "/* never closed\n" + send, "unterminated-string": "set_tx_meta(\"k, 1)\n" + send,
+		"long-1000-sends": strings.Repeat(send, 1000), "long-account-name": "send [USD 1] (\n  source = @world\n  destination = @" + strings.Repeat("a", 5000) + "\n)\n",
+		"deep-nesting": "send [USD 8] (\n  source = " + strings.Repeat("{ ", 60) + "@world" + strings.Repeat(" }", 60) + "\n  destination = @alice\n)\n",
+		"fail-statement": "fail\n", "print-only": "print 7\n", "meta-only": "set_tx_meta(\"k\", 1)\n",
+	}
+	names := make([]string, 0, len(shapes))
+	for n := range shapes {
+		names = append(names, n)
+	}
+	sort.Strings(names)
+	for _, api := range []string{"v1", "v2", "bulk"} {
+		for _, name := range names {
+			plain := shapes[name]
+			disk := &engx.Disk{}
+			w := boot(disk)
+			js, _ := json.Marshal(plain)
+			data := fmt.Sprintf(`{"script":{"plain":%s}}`, js)
+			path, body := "/api/ledger/l0/transactions", data
+			switch api {
+			case "v2":
+				path = "/api/ledger/v2/l0/transactions"
+			case "bulk":
+				path, body = "/api/ledger/v2/l0/_bulk", `[{"action":"CREATE_TRANSACTION","data":`+data+`}]`
+			}
+			req := httptest.NewRequest("POST", path, bytes.NewBufferString(body))
+			req.Header.Set("Content-Type", "application/json")
+			rec := httptest.NewRecorder()
+			pan := ""
+			answered := make(chan struct{})
+			go func() {
+				defer close(answered)
+				defer func() {
+					if e := recover(); e != nil {
+						pan = fmt.Sprint(e)
+					}
+				}()
+				w.router.ServeHTTP(rec, req)
+			}()
+			in := map[string]any{"api": api, "shape": name, "script_bytes": len(plain)}
+			if len(plain) < 400 {
+				in["script"] = plain
+			}
+			select {
+			case <-answered:
+				ok := rec.Code >= 200 && rec.Code < 300 && api != "bulk"
+				switch {
+				case pan != "":
+					r.FailP("C12", "http:panic-on-a-script-text:"+api+":"+name, in, pan, len(name))
+				case crashed(rec):
+					r.FailP("C12", "http:internal-error-on-a-script-text:"+api+":"+name, in, fmt.Sprintf("status %d body %.300s", rec.Code, rec.Body.String()), len(name))
+				case ok && len(disk.Logs) != 1:
+					r.FailP("C06", "http:success-without-exactly-one-entry:"+api+":script-text", in, fmt.Sprintf("status %d, %d entries", rec.Code, len(disk.Logs)), len(name))
+				case !ok && api != "bulk" && len(disk.Logs) != 0:
+					r.FailP("C06", "http:rejected-write-left-an-entry:"+api+":script-text", in, fmt.Sprintf("status %d, %d entries", rec.Code, len(disk.Logs)), len(name))
+				}
+			case <-time.After(10 * time.Second):
+				r.FailP("C12", "http:script-request-never-answered:"+api+":"+name, in, "the engine hangs on this script", len(name))
+			}
+			w.cancel()
+			r.Count("http:script-text-shape")
+			r.Case("", in, api+":"+name, true)
+		}
+	}
+}
+
+// bulkKeys: bulks of create elements with and without idempotency keys through the real bulk handler to the real Commander:
+// every acknowledged element has its own entry, carrying exactly the key the element spells out (C06, C07)
+func bulkKeys(r *vx.Run) {
+	for _, iks := range [][]string{{"", ""}, {"k1", ""}, {"", "k1"}, {"k1", "k2"}, {"k1", "", "k2"}, {"k1", "", ""}, {"", "k1", ""}, {"k1", "k2", ""}, {"k1", "", "k1"}} {
+		for _, cont := range []string{"", "?continueOnFailure=true"} {
+			disk := &engx.Disk{}
+			w := boot(disk)
+			var els []string
+			for i, k := range iks {
+				els = append(els, fmt.Sprintf(`{"action":"CREATE_TRANSACTION","ik":%q,"data":{"postings":[{"source":"world","destination":"acc%d","asset":"USD","amount":%d}]}}`, k, i, 10+i))
+			}
+			req := httptest.NewRequest("POST", "/api/ledger/v2/l0/_bulk"+cont, bytes.NewBufferString("["+strings.Join(els, ",")+"]"))
+			req.Header.Set("Content-Type", "application/json")
+			rec := httptest.NewRecorder()
+			w.router.ServeHTTP(rec, req)
+			in := map[string]any{"bulk_idempotency_keys": iks, "query": cont}
+			// the third element of {"k1","","k1"} reuses k1 for a DIFFERENT request: refused; everything else is written
+			want := len(iks)
+			if len(iks) == 3 && iks[2] == "k1" && iks[0] == "k1" {
+				want = 2
+			}
+			if len(disk.Logs) != want {
+				r.FailP("C06", "http:bulk-elements-and-entries-differ", in, fmt.Sprintf("%d entries for %d elements that must each write one (status %d, body %.300s)", len(disk.Logs), want, rec.Code, rec.Body.String()), len(iks))
+			}
+			for i, l := range disk.Logs {
+				if i < len(iks) && l.IdempotencyKey != iks[i] && len(disk.Logs) == want {
+					r.FailP("C07", "http:bulk-entry-carries-a-key-its-element-does-not", in, fmt.Sprintf("entry %d has key %q, element has %q", i, l.IdempotencyKey, iks[i]), len(iks))
+				}
+			}
+			w.cancel()
+			r.Count("http:bulk-keys")
+			r.Case("", in, fmt.Sprint(iks, cont), true)
 		}
 	}
 }
@@ -712,6 +868,8 @@ func main() {
 		runHistory(r, gen(g.Fork()))
 	}
 	varsShapes(r)
+	bulkKeys(r)
+	scriptShapes(r)
 	r.Sum.Shards = []string{}
 	r.Finish()
 }
